@@ -52,8 +52,13 @@ inline constexpr void convert_type_fundamental(T_To& to,
     // Some branches don't use the param
     RLBOX_UNUSED(err_msg);
 
+    // Compare value ranges via digits rather than sizeof, as bool has the same
+    // size as char, but a smaller range
+    constexpr auto to_digits = numeric_limits<T_To>::digits;
+    constexpr auto from_digits = numeric_limits<T_From>::digits;
+
     if constexpr (is_signed_v<T_To> == is_signed_v<T_From> &&
-                  sizeof(T_To) >= sizeof(T_From)) {
+                  to_digits >= from_digits) {
       // Eg: int64_t from int32_t, uint64_t from uint32_t
     } else if constexpr (is_unsigned_v<T_To> && is_unsigned_v<T_From>) {
       // Eg: uint32_t from uint64_t
@@ -63,7 +68,7 @@ inline constexpr void convert_type_fundamental(T_To& to,
       dynamic_check(from >= numeric_limits<T_To>::min(), err_msg);
       dynamic_check(from <= numeric_limits<T_To>::max(), err_msg);
     } else if constexpr (is_unsigned_v<T_To> && is_signed_v<T_From>) {
-      if constexpr (sizeof(T_To) < sizeof(T_From)) {
+      if constexpr (to_digits < from_digits) {
         // Eg: uint32_t from int64_t
         dynamic_check(from >= 0, err_msg);
         auto to_max = numeric_limits<T_To>::max();
@@ -73,7 +78,7 @@ inline constexpr void convert_type_fundamental(T_To& to,
         dynamic_check(from >= 0, err_msg);
       }
     } else if constexpr (is_signed_v<T_To> && is_unsigned_v<T_From>) {
-      if constexpr (sizeof(T_To) <= sizeof(T_From)) {
+      if constexpr (to_digits < from_digits) {
         // Eg: int32_t from uint32_t, int32_t from uint64_t
         auto to_max = numeric_limits<T_To>::max();
         dynamic_check(from <= static_cast<T_From>(to_max), err_msg);
